@@ -117,6 +117,33 @@ fn c06_step<const P: usize, const N: usize>(pre: &[u8; P]) {
     kani::cover!(r.is_err() && !rest.is_empty(), "error with input left");
 }
 
+fn same_str(a: &str, b: &str) -> bool {
+    a.len() == b.len() && (a.is_empty() || a.as_ptr() == b.as_ptr())
+}
+
+fn same_opt(a: Option<&str>, b: Option<&str>) -> bool {
+    match (a, b) {
+        (None, None) => true,
+        (Some(x), Some(y)) => same_str(x, y),
+        _ => false,
+    }
+}
+
+/// Both records were parsed from the same buffer: equal means the same variant with
+/// the very same slices (pointer and length) and numbers.
+fn same_record(a: &ProguardRecord, b: &ProguardRecord) -> bool {
+    match (a, b) {
+        (ProguardRecord::Header { key: k1, value: v1 }, ProguardRecord::Header { key: k2, value: v2 }) => same_str(k1, k2) && same_opt(*v1, *v2),
+        (ProguardRecord::Class { original: o1, obfuscated: b1 }, ProguardRecord::Class { original: o2, obfuscated: b2 }) => same_str(o1, o2) && same_str(b1, b2),
+        (ProguardRecord::Field { ty: t1, original: o1, obfuscated: b1 }, ProguardRecord::Field { ty: t2, original: o2, obfuscated: b2 }) => same_str(t1, t2) && same_str(o1, o2) && same_str(b1, b2),
+        (
+            ProguardRecord::Method { ty: t1, original: o1, obfuscated: b1, arguments: a1, original_class: c1, line_mapping: l1 },
+            ProguardRecord::Method { ty: t2, original: o2, obfuscated: b2, arguments: a2, original_class: c2, line_mapping: l2 },
+        ) => same_str(t1, t2) && same_str(o1, o2) && same_str(b1, b2) && same_str(a1, a2) && same_opt(*c1, *c2) && l1 == l2,
+        _ => false,
+    }
+}
+
 /// C06, inductive step (d) locality: the result of one step depends only on the
 /// first line. With k leading terminators and p the first terminator after
 /// them, the record parsed from the whole slice equals the record parsed from
@@ -143,7 +170,7 @@ fn c06_locality<const P: usize, const N: usize>(pre: &[u8; P]) {
     let (r1, rest1) = parse_proguard_record(s);
     let (r2, rest2) = parse_proguard_record(&s[..p]);
     match (&r1, &r2) {
-        (Ok(a), Ok(b)) => assert!(a == b, "C06: the record depends on bytes after its line"),
+        (Ok(a), Ok(b)) => assert!(same_record(a, b), "C06: the record depends on bytes after its line"),
         (Err(_), Err(_)) => {}
         _ => panic!("C06: whether a line parses depends on bytes after it"),
     }
@@ -178,6 +205,7 @@ c06!(c06_step_header_4, c06_step, b"#", 1, 5, 8);
 c06!(c06_step_header_6, c06_step, b"# ", 2, 8, 11);
 c06!(c06_step_sourcefile_3, c06_step, b"# {\"id\":\"sourceFile\",\"fileName\":\"", 33, 36, 40);
 c06!(c06_step_sourcefile_5, c06_step, b"# {\"id\":\"sourceFile\",\"fileName\":\"", 33, 38, 42);
+c06!(c06_locality_any_3, c06_locality, b"", 0, 3, 6);
 c06!(c06_locality_any_4, c06_locality, b"", 0, 4, 7);
 c06!(c06_locality_any_5, c06_locality, b"", 0, 5, 8);
 c06!(c06_locality_header_4, c06_locality, b"#", 1, 5, 8);
@@ -383,9 +411,23 @@ mod c18 {
     #[kani::stub(uuid::Uuid::new_v5, new_v5_recorder)]
     #[kani::unwind(20)]
     fn c18_uuid_wiring() {
-        let buf: [u8; 16] = kani::any();
+        c18_wiring::<16>();
+    }
+
+    /// Same on sources of <= 3 bytes: small enough that a change which routes the
+    /// bytes through text decoding / re-encoding still terminates and is refuted
+    /// (on 16 symbolic bytes such a change only times out = inconclusive).
+    #[kani::proof]
+    #[kani::stub(uuid::Uuid::new_v5, new_v5_recorder)]
+    #[kani::unwind(8)]
+    fn c18_uuid_wiring_3() {
+        c18_wiring::<3>();
+    }
+
+    fn c18_wiring<const N: usize>() {
+        let buf: [u8; N] = kani::any();
         let len: usize = kani::any();
-        kani::assume(len <= 16);
+        kani::assume(len <= N);
         let src = &buf[..len];
         let mapping = ProguardMapping::new(src);
         let u = mapping.uuid();
@@ -400,6 +442,275 @@ mod c18 {
             assert!(*u.as_bytes() == RESULT[1], "C18: the returned UUID is not the second hash");
         }
         kani::cover!(len == 0, "empty source");
-        kani::cover!(len == 16 && buf[15] == b'\n' && buf[14] == b'\r', "source ending in CRLF");
+        kani::cover!(len == N && buf[N - 1] == b'\n' && buf[N - 2] == b'\r', "source ending in CRLF");
     }
 }
+
+// ---------------------------------------------------------------- C05: line grammar templates
+
+/// Template segments. A template is a concrete sequence of segments; identifier
+/// and number segments are holes filled with symbolic characters, everything
+/// else is literal text. The hole positions are recorded while the line is
+/// built, so the expected record is assembled from them - never typed by hand.
+#[derive(Clone, Copy, PartialEq)]
+enum Seg {
+    Lit(&'static [u8]),
+    /// identifier hole of n characters for role r; `dots`: '.' allowed inside
+    Id(usize, Role, bool),
+    /// number hole of n digits for role r
+    Num(usize, Role),
+}
+
+#[derive(Clone, Copy, PartialEq)]
+enum Role {
+    Start = 0,
+    End = 1,
+    Ty = 2,
+    OClass = 3,
+    Orig = 4,
+    Args = 5,
+    OStart = 6,
+    OEnd = 7,
+    Obf = 8,
+    Key = 9,
+    Val = 10,
+}
+const NROLES: usize = 11;
+
+struct Built {
+    buf: [u8; 64],
+    len: usize,
+    off: [usize; NROLES],
+    n: [usize; NROLES],
+    present: [bool; NROLES],
+    val: [usize; NROLES],
+}
+
+fn id_char(dots: bool) -> u8 {
+    // identifier alphabet of the property: letters, digits, '$', '<', '>', '-', '[', ']', '_',
+    // and (for qualified names) '.'; the 2-byte letter U+00E9 is a separate template literal
+    let c: u8 = kani::any();
+    kani::assume(matches!(c, b'a' | b'Z' | b'$' | b'<' | b'>' | b'-' | b'[' | b']' | b'_' | b'7') || (dots && c == b'.'));
+    c
+}
+
+fn build<const S: usize>(segs: &[Seg; S]) -> Built {
+    let mut b = Built { buf: [0; 64], len: 0, off: [0; NROLES], n: [0; NROLES], present: [false; NROLES], val: [0; NROLES] };
+    let mut s = 0;
+    while s < S {
+        match segs[s] {
+            Seg::Lit(t) => {
+                let mut i = 0;
+                while i < t.len() {
+                    b.buf[b.len] = t[i];
+                    b.len += 1;
+                    i += 1;
+                }
+            }
+            Seg::Id(n, r, dots) => {
+                let r = r as usize;
+                b.off[r] = b.len;
+                b.n[r] = n;
+                b.present[r] = true;
+                let mut i = 0;
+                while i < n {
+                    let mut c = id_char(dots && i > 0 && i + 1 < n);
+                    if i == 0 && r == Role::Ty as usize {
+                        // a type does not start with a digit (it would read as a line number)
+                        kani::assume(c != b'7');
+                    }
+                    if r == Role::Key as usize || r == Role::Val as usize {
+                        kani::assume(c != b'<' && c != b'>' && c != b'[' && c != b']');
+                    }
+                    b.buf[b.len] = c;
+                    b.len += 1;
+                    i += 1;
+                    c = 0;
+                    let _ = c;
+                }
+            }
+            Seg::Num(n, r) => {
+                let r = r as usize;
+                b.off[r] = b.len;
+                b.n[r] = n;
+                b.present[r] = true;
+                let mut v = 0usize;
+                let mut i = 0;
+                while i < n {
+                    let d: u8 = kani::any();
+                    kani::assume(d <= 9);
+                    b.buf[b.len] = b'0' + d;
+                    b.len += 1;
+                    v = v * 10 + d as usize;
+                    i += 1;
+                }
+                b.val[r] = v;
+            }
+        }
+        s += 1;
+    }
+    b
+}
+
+fn at(b: &Built, s: &str, r: Role) -> bool {
+    let r = r as usize;
+    b.present[r] && s.len() == b.n[r] && (s.is_empty() && b.n[r] == 0 || unsafe { s.as_ptr().offset_from(b.buf.as_ptr()) } as usize == b.off[r])
+}
+
+fn opt_at(b: &Built, s: Option<&str>, r: Role) -> bool {
+    match s {
+        Some(s) => at(b, s, r),
+        None => !b.present[r as usize],
+    }
+}
+
+/// C05: a well-formed template parses (alone via `try_parse` when it has no
+/// terminator, and as the first line of a file via the record parser) to a
+/// record with exactly the hole contents: names, types, arguments, the foreign
+/// class split at the last dot, and a line mapping present iff both obfuscated
+/// numbers are positive, original start/end present iff printed.
+/// `kind`: 0 header, 1 class, 2 field, 3 method. `term`: terminator length in the template.
+fn c05_wellformed<const S: usize>(segs: [Seg; S], kind: u8, term: usize) {
+    let b = build(&segs);
+    let line = &b.buf[..b.len];
+    let (r, rest) = parse_proguard_record(line);
+    assert!(rest.is_empty(), "C05: bytes left after a single well-formed line");
+    let rec = match r {
+        Ok(rec) => rec,
+        Err(e) => {
+            core::mem::forget(e);
+            panic!("C05: well-formed line rejected");
+        }
+    };
+    if term == 0 {
+        match ProguardRecord::try_parse(line) {
+            Ok(r2) => assert!(r2 == rec, "C05: try_parse differs from the iterator's parser"),
+            Err(e) => {
+                core::mem::forget(e);
+                panic!("C05: try_parse rejects a well-formed line");
+            }
+        }
+    }
+    match rec {
+        ProguardRecord::Header { key, value } => {
+            assert!(kind == 0, "C05: parsed as a header");
+            assert!(at(&b, key, Role::Key) && opt_at(&b, value, Role::Val), "C05: header parts");
+        }
+        ProguardRecord::Class { original, obfuscated } => {
+            assert!(kind == 1, "C05: parsed as a class");
+            assert!(at(&b, original, Role::Orig) && at(&b, obfuscated, Role::Obf), "C05: class parts");
+        }
+        ProguardRecord::Field { ty, original, obfuscated } => {
+            assert!(kind == 2, "C05: parsed as a field");
+            assert!(at(&b, ty, Role::Ty) && at(&b, original, Role::Orig) && at(&b, obfuscated, Role::Obf), "C05: field parts");
+        }
+        ProguardRecord::Method { ty, original, obfuscated, arguments, original_class, line_mapping } => {
+            assert!(kind == 3, "C05: parsed as a method");
+            assert!(at(&b, ty, Role::Ty) && at(&b, original, Role::Orig) && at(&b, obfuscated, Role::Obf) && at(&b, arguments, Role::Args), "C05: method parts");
+            assert!(opt_at(&b, original_class, Role::OClass), "C05: foreign class split");
+            let s = Role::Start as usize;
+            let e = Role::End as usize;
+            let want_lm = b.present[s] && b.val[s] > 0 && b.val[e] > 0;
+            match line_mapping {
+                None => assert!(!want_lm, "C05: line mapping missing"),
+                Some(lm) => {
+                    assert!(want_lm, "C05: line mapping for a non-positive range");
+                    assert!(lm.startline == b.val[s] && lm.endline == b.val[e], "C05: line range");
+                    let os = Role::OStart as usize;
+                    let oe = Role::OEnd as usize;
+                    assert!(lm.original_startline == if b.present[os] { Some(b.val[os]) } else { None }, "C05: original start line");
+                    assert!(lm.original_endline == if b.present[oe] { Some(b.val[oe]) } else { None }, "C05: original end line");
+                }
+            }
+            kani::cover!(b.present[s] && b.val[s] == 0, "zero start line");
+        }
+    }
+}
+
+/// C05: a malformed template is reported as an error carrying the offending
+/// line (from its first byte up to and including the first terminator), never
+/// as a record; parsing resumes after it.
+fn c05_malformed<const S: usize>(segs: [Seg; S], line_len: usize) {
+    let b = build(&segs);
+    let text = &b.buf[..b.len];
+    let (r, rest) = parse_proguard_record(text);
+    match r {
+        Ok(_) => panic!("C05: malformed line accepted as a record"),
+        Err(e) => {
+            assert!(e.line().as_ptr() == text.as_ptr() && e.line().len() == line_len, "C05: the error does not carry the offending line");
+            assert!(rest.len() == b.len - line_len, "C05: parsing does not resume after the offending line");
+            core::mem::forget(e);
+        }
+    }
+}
+
+macro_rules! c05 {
+    ($name:ident, $uw:expr, $body:expr) => {
+        #[kani::proof]
+        #[kani::stub(core::str::from_utf8, from_utf8_model)]
+        #[kani::stub(char::is_numeric, is_numeric_model)]
+        #[kani::stub(core::slice::memchr::memchr, crate::java::verif_harness::memchr_model)]
+        #[kani::stub(core::slice::memchr::memrchr, crate::java::verif_harness::memrchr_model)]
+        #[kani::unwind($uw)]
+        fn $name() {
+            $body
+        }
+    };
+}
+use Role::*;
+use Seg::*;
+c05!(c05_class, 13, c05_wellformed([Id(3, Orig, true), Lit(b" -> "), Id(2, Obf, true), Lit(b":")], 1, 0));
+c05!(c05_class_crlf, 14, c05_wellformed([Id(2, Orig, true), Lit(b" -> "), Id(2, Obf, false), Lit(b":\r\n")], 1, 2));
+c05!(c05_header_kv, 12, c05_wellformed([Lit(b"# "), Id(2, Key, false), Lit(b": "), Id(2, Val, false), Lit(b"\n")], 0, 1));
+c05!(c05_header_k, 7, c05_wellformed([Lit(b"#"), Id(3, Key, false)], 0, 0));
+c05!(c05_header_sourcefile, 43, c05_wellformed([Lit(b"# {\"id\":\"sourceFile\",\"fileName\":\""), Id(3, Val, true), Lit(b"\"}\n\n")], 0, 2));
+c05!(c05_field, 19, c05_wellformed([Lit(b"    "), Id(3, Ty, true), Lit(b" "), Id(2, Orig, false), Lit(b" -> "), Id(2, Obf, false)], 2, 0));
+c05!(c05_field_lf, 18, c05_wellformed([Lit(b"    "), Id(2, Ty, false), Lit(b" "), Id(2, Orig, false), Lit(b" -> "), Id(1, Obf, false), Lit(b"\n")], 2, 1));
+c05!(c05_method_plain, 22, c05_wellformed([Lit(b"    "), Id(2, Ty, false), Lit(b" "), Id(2, Orig, false), Lit(b"("), Id(2, Args, true), Lit(b") -> "), Id(2, Obf, false)], 3, 0));
+c05!(c05_method_noargs_class, 24, c05_wellformed([Lit(b"    "), Id(2, Ty, false), Lit(b" "), Id(3, OClass, true), Lit(b"."), Id(2, Orig, false), Lit(b"("), Id(0, Args, false), Lit(b") -> "), Id(1, Obf, false), Lit(b"\n")], 3, 1));
+c05!(c05_method_range, 26, c05_wellformed([Lit(b"    "), Num(2, Start), Lit(b":"), Num(2, End), Lit(b":"), Id(2, Ty, false), Lit(b" "), Id(2, Orig, false), Lit(b"("), Id(1, Args, false), Lit(b") -> "), Id(1, Obf, false)], 3, 0));
+c05!(c05_method_range_os, 30, c05_wellformed([Lit(b"    "), Num(2, Start), Lit(b":"), Num(1, End), Lit(b":"), Id(1, Ty, false), Lit(b" "), Id(2, OClass, false), Lit(b"."), Id(1, Orig, false), Lit(b"("), Id(0, Args, false), Lit(b"):"), Num(2, OStart), Lit(b" -> "), Id(1, Obf, false), Lit(b"\r\n")], 3, 2));
+c05!(c05_method_range_os_oe, 32, c05_wellformed([Lit(b"    "), Num(1, Start), Lit(b":"), Num(2, End), Lit(b":"), Id(1, Ty, false), Lit(b" "), Id(1, Orig, false), Lit(b"("), Id(1, Args, false), Lit(b"):"), Num(2, OStart), Lit(b":"), Num(3, OEnd), Lit(b" -> "), Id(1, Obf, false), Lit(b"\n\n")], 3, 2));
+c05!(c05_method_norange_os, 23, c05_wellformed([Lit(b"    "), Id(2, Ty, false), Lit(b" "), Id(1, Orig, false), Lit(b"("), Id(0, Args, false), Lit(b"):"), Num(2, OStart), Lit(b":"), Num(1, OEnd), Lit(b" -> "), Id(1, Obf, false)], 3, 0));
+c05!(c05_bad_unspaced_arrow, 12, c05_malformed([Id(2, Orig, false), Lit(b"->"), Id(2, Obf, false), Lit(b":\n"), Lit(b"x")], 8));
+c05!(c05_bad_class_no_colon, 13, c05_malformed([Id(2, Orig, false), Lit(b" -> "), Id(2, Obf, false), Lit(b"\n"), Lit(b"x")], 9));
+c05!(c05_bad_indent2, 16, c05_malformed([Lit(b"  "), Id(2, Ty, false), Lit(b" "), Id(2, Orig, false), Lit(b" -> "), Id(1, Obf, false), Lit(b"\n")], 13));
+c05!(c05_bad_start_without_end, 22, c05_malformed([Lit(b"    "), Num(2, Start), Lit(b":"), Id(2, Ty, false), Lit(b" "), Id(1, Orig, false), Lit(b"() -> "), Id(1, Obf, false), Lit(b"\n")], 19));
+c05!(c05_bad_no_type, 17, c05_malformed([Lit(b"    "), Id(2, Orig, false), Lit(b"() -> "), Id(1, Obf, false), Lit(b"\n")], 14));
+c05!(c05_bad_no_arrow, 15, c05_malformed([Lit(b"    "), Id(2, Ty, false), Lit(b" "), Id(2, Orig, false), Lit(b"\r\n"), Lit(b"y")], 10));
+
+/// `parse_usize` alone: up to 20 symbolic digits followed by ':' - value on
+/// success, error (never a panic or a wrapped value) when it does not fit.
+#[kani::proof]
+#[kani::stub(core::str::from_utf8, from_utf8_model)]
+#[kani::stub(char::is_numeric, is_numeric_model)]
+#[kani::unwind(24)]
+fn c05_parse_usize_20() {
+    let mut buf = [b':'; 21];
+    let n: usize = kani::any();
+    kani::assume(n >= 1 && n <= 20);
+    let mut v: u128 = 0;
+    let mut i = 0;
+    while i < 20 {
+        if i < n {
+            let d: u8 = kani::any();
+            kani::assume(d <= 9);
+            buf[i] = b'0' + d;
+            v = v * 10 + d as u128;
+        }
+        i += 1;
+    }
+    match parse_usize(&buf[..n + 1]) {
+        Ok((x, rest)) => {
+            assert!(x as u128 == v, "C05: parse_usize value");
+            assert!(rest.len() == 1, "C05: parse_usize rest");
+        }
+        Err(e) => {
+            assert!(v > u64::MAX as u128, "C05: parse_usize rejects a number that fits");
+            core::mem::forget(e);
+        }
+    }
+    kani::cover!(v == u64::MAX as u128, "2^64-1 parsed");
+    kani::cover!(v > u64::MAX as u128, "overflowing digit run");
+}
+
